@@ -62,6 +62,8 @@ def chash(cfg):
 
 def describe(cfg):
     d = _describe(cfg)
+    if cfg.get("late") and "late" not in d:
+        d += " finalised %d Forward(s) late" % cfg["late"]
     if cfg.get("np"):
         d += " [integer arguments as numpy.int64]"
     return d
